@@ -706,3 +706,69 @@ func uniq(s []string) []string {
 	}
 	return out
 }
+
+// S13: the memory-outermost axis that AP.S uses to decide whether a slice stays contiguous is
+// axis 0 for row-major (and vector) patterns and the LAST axis of the pattern for
+// column-major ones. A slice along any other axis leaves gaps and must be flagged
+// NonContiguous, otherwise later operations skip the iterator (C02 contiguity clause, C16).
+func S13(rc *RC) {
+	rc.S.Declare("S13", "contiguity flagging in AP.S: the outermost axis is 0 for row-major/vector patterns and len(shape)-1 for column-major ones; a non-nil slice on any other axis, or a step > 1, sets NonContiguous", 1)
+	fi := anchor(rc, "S13", "tensor.(*AP).S")
+	if fi == nil {
+		return
+	}
+	pos := rc.P.Pos(fi.Decl.Pos())
+	_, tree := sCanon(rc, fi)
+	var bad []string
+	okOuter := false
+	for _, n := range flatten(tree) {
+		if n.Kind != "if" {
+			continue
+		}
+		thenT, elseT := strings.TrimSpace(ir.Render(n.Kids)), strings.TrimSpace(ir.Render(n.Else))
+		if !strings.HasPrefix(thenT, "%outerDim = ") && !strings.HasPrefix(elseT, "%outerDim = ") {
+			continue
+		}
+		f := normAtomsGeneral(ir.ParseBool(n.Head))
+		rowOrVec := normAtomsGeneral(ir.ParseBool("(!$r.o.IsColMajor() || $r.IsVector())"))
+		// then-branch must be exactly the row-major-or-vector case
+		if ir.Implies([]*ir.BExpr{f}, rowOrVec) && ir.Implies([]*ir.BExpr{rowOrVec}, f) {
+			if thenT == "%outerDim = 0" && (elseT == "%outerDim = (len($r.shape) - 1)" || elseT == "%outerDim = ($r.Dims() - 1)" || elseT == "%outerDim = ($r.shape.Dims() - 1)") {
+				okOuter = true
+			} else {
+				bad = append(bad, fmt.Sprintf("outermost axis is %q for row-major/vector and %q otherwise; want 0 and the last axis of the pattern", thenT, elseT))
+			}
+		} else {
+			bad = append(bad, "the outermost axis is not selected by (row-major or vector): "+n.Head)
+		}
+	}
+	if !okOuter && len(bad) == 0 {
+		bad = append(bad, "no selection of the outermost axis by data order found")
+	}
+	// the flagging condition
+	flag := false
+	for _, n := range flatten(tree) {
+		if n.Kind == "if" && strings.Contains(ir.Render(n.Kids), "MakeDataOrder(%order, NonContiguous)") {
+			want := "(((%sl != nil) && (!$r.IsVector() && (%i != %outerDim))) || (%step > 1))"
+			if n.Head == want {
+				flag = true
+			} else {
+				g := normAtomsGeneral(ir.ParseBool(n.Head))
+				w := normAtomsGeneral(ir.ParseBool(want))
+				if ir.Implies([]*ir.BExpr{w}, g) {
+					flag = true // flags at least as often
+				} else {
+					bad = append(bad, "NonContiguous is set under "+n.Head+", which misses cases of "+want)
+				}
+			}
+		}
+	}
+	if !flag && len(bad) == 0 {
+		bad = append(bad, "no NonContiguous flagging found")
+	}
+	if len(bad) > 0 {
+		rc.S.Viol("S13", "tensor.(*AP).S#contiguity", pos, strings.Join(bad, "; ")).Sig = strings.Join(bad, "; ")
+	} else {
+		rc.S.Ok("S13", "tensor.(*AP).S#contiguity", pos, "outermost axis by data order; NonContiguous on inner-axis slices and steps")
+	}
+}
